@@ -18,7 +18,7 @@ PATHS = ["p", "q", "d/r", "d/e/s", "t.txt", "a b", "d.x"]
 # every random history also gets three names from this list (seed C06-D: a file name containing `..` made the archive
 # look tampered). None is a directory prefix of another or of PATHS; none ends in the reserved staging suffix.
 EXOTIC = ["v1..v2.diff", ".hidden", "d/.e", "UP.txt", "up.txt", "a'b", "nl\nx", "é", "-dash", "tab\tz", "d/e/..s", "sp dir/f",
-          "q.conflict-vh-000000000000", "~t", "$v", "star*", "d..d/f", "...", "a\\b", "%p", "d/e/s.bak", "zz/.copia/x"]
+          "q.conflict-vh-000000000000", "~t", "$v", "Q3%20R.txt", "d/%41%zz", "100%.txt", "star*", "d..d/f", "...", "a\\b", "%p", "d/e/s.bak", "zz/.copia/x"]
 
 
 def archive_trust(raw, stem):
@@ -257,6 +257,24 @@ def pair_identity_section(pid, res, count):
                 res["violations"].append(("foreign-archive-trusted", "after the root symlink was re-pointed at another directory the run trusted the record made for the OLD directory pair", rep2))
             if not (os.path.exists(os.path.join(b_, b"g")) and os.path.exists(os.path.join(t2, b"g"))):
                 res["violations"].append(("file-removed-under-foreign-archive", "B/g is listed in the record of the old pair; with the new directory behind the link it was removed instead of created there", rep2))
+    # a root that does NOT exist, given by a relative name, from two different working directories (two different would-be
+    # directories behind one spelling): whatever the first run recorded must not be trusted by the second
+    with Sandbox(pid) as sb:
+        base = os.fsencode(sb.dir)
+        data, c1, c2 = os.path.join(base, b"data"), os.path.join(base, b"P1"), os.path.join(base, b"P2")
+        for d_ in (data, c1, c2):
+            os.makedirs(d_)
+        for nm in (b"a.txt", b"b.txt", b"sub/c.txt"):
+            os.makedirs(os.path.dirname(os.path.join(data, nm)), exist_ok=True)
+            open(os.path.join(data, nm), "wb").write(b"content of " + nm)
+        before = sb.read_tree(data.decode())
+        r1 = subprocess.run([os.fsencode(CLI_BIN), b"bisync", data, b"mirror"], env=sb.env, cwd=c1, stdout=subprocess.PIPE, stderr=subprocess.PIPE)
+        r2 = subprocess.run([os.fsencode(CLI_BIN), b"bisync", data, b"mirror"], env=sb.env, cwd=c2, stdout=subprocess.PIPE, stderr=subprocess.PIPE)
+        after = sb.read_tree(data.decode())
+        count("pair-identity/missing-relative-root")
+        if any(k not in after for k in before):
+            res["violations"].append(("file-removed-under-foreign-archive", "`bisync data mirror` from a second working directory (where `mirror` does not exist either) removed files of data/ on the strength of the record the first run made for ANOTHER mirror directory",
+                                      {"rc1": r1.returncode, "rc2": r2.returncode, "stderr2": r2.stderr.decode("utf-8", "replace")[-300:], "before": sorted(before), "after": sorted(after)}))
     if ndis:
         res["broken"].append(f"{pid}/corr/pair-identity: the archive file name differs from blake3(canon(A) NUL canon(B)) over the exact path bytes for {ndis} of {len(PAIR_NAMES) + 2} root pairs")
     return ndis
